@@ -96,4 +96,17 @@ PROPS = {
             {"name": "sequential", "pkg": "c07", "run": "^TestC07$", "race": True, "shards": {"quick": 8, "thorough": 16}, "timeout": {"quick": 400, "thorough": 3000}},
         ],
     },
+    "C06": {
+        "level": "exploration",
+        "level_text": "Wait: on K recorded workloads (1-3 publishers, async handlers that yield / sleep / publish further async work to depth 3, Wait called at PRNG-chosen points incl. immediately after Publish, GOMAXPROCS 1/2/4/16, -race) every async delivery owed to a live-context publish ran exactly once, and at every Wait return stamp every invocation in the transitive closure of the publishes that had returned before that Wait was called had exited. Shutdown: a complete grid of handler durations x nesting x context deadline / cancel instant x store kind run under virtual time (testing/synctest): return value, return instant, Close count and Close instant were exact.",
+        "level_note": "Obligations come only from publishes whose return stamp precedes the Wait call stamp; schedules are sampled. Virtual time makes Shutdown outcomes exact; scenarios in which the context ends at the same virtual instant as the work accept either outcome.",
+        "technique": "runtime monitoring: offline closure checker over recorded histories (race detector on) + exact-outcome assertions under virtual time",
+        "design_ref": "DESIGN.md section 5 C06, section 4.9",
+        "rule": "wait: PRNG (registry, nesting depth, publishers, wait points, GOMAXPROCS); shutdown: full grid d1 x d2 x nested x deadline x store x cancel kind; distinct = (GOMAXPROCS, nesting, publishers, owed-not-started / running classes) or the grid point; non-trivial = at least one owed invocation had not started when Wait was called / the grid point has a context that ends at a positive instant different from the work's end",
+        "assumptions": ["logical-clock stamps are taken at the API boundary and inside handler bodies", "testing/synctest virtual time (Go 1.25) for the Shutdown grid"],
+        "parts": [
+            {"name": "wait", "pkg": "c06", "run": "^TestC06Wait$", "race": True, "shards": {"quick": 6, "thorough": 16}, "timeout": {"quick": 400, "thorough": 3000}},
+            {"name": "shutdown", "pkg": "c06", "run": "^TestC06Shutdown$", "shards": {"quick": 2, "thorough": 4}, "timeout": {"quick": 300, "thorough": 900}},
+        ],
+    },
 }
